@@ -450,3 +450,124 @@ def at(stmts, stmt, expr, env0=None):
     """expr as seen just before `stmt` on the linear path, with every name replaced by its definition"""
     env = seq_env(stmts, upto=stmt, env=env0)
     return _SubstEnv(env).visit(copy.deepcopy(expr))
+
+
+def at_node(fi, node, expr, consts=None):
+    """expr as seen at `node` (anywhere inside fi): names defined by the straight-line prefix of the function body are replaced
+    by their definitions; names written inside the compound statement that contains `node` stay opaque."""
+    body = linear_path(fi.node.body, consts or {}) if consts is not None else fi.node.body
+    top = None
+    for s in body:
+        if any(n is node for n in ast.walk(s)):
+            top = s
+            break
+    if top is None:
+        return expand(fi, expr)
+    env = seq_env(body, upto=top)
+    if not isinstance(top, (ast.Assign, ast.Expr, ast.Return, ast.AnnAssign, ast.AugAssign)):
+        for n in stored_names(top):
+            env.pop(n, None)
+    return _SubstEnv(env).visit(copy.deepcopy(expr))
+
+
+# ----------------------------------------------------------------------------- nested flow-sensitive environments
+def _contains(s, node):
+    return any(n is node for n in ast.walk(s))
+
+
+def env_at(body, node, env=None):
+    """symbolic environment just before the simple statement (or compound header) that contains `node`, descending into loops/ifs/try:
+    names written anywhere inside an enclosing compound statement are opaque at its entry and re-defined by the statements that
+    precede `node` inside it."""
+    env = dict(env or {})
+    for s in body:
+        if _contains(s, node):
+            subs = []
+            for field in ("body", "orelse", "finalbody"):
+                sub = getattr(s, field, None)
+                if isinstance(sub, list) and sub and isinstance(sub[0], ast.stmt):
+                    subs.append(sub)
+            if isinstance(s, ast.Try):
+                for h in s.handlers:
+                    subs.append(h.body)
+            for sub in subs:
+                if any(_contains(x, node) for x in sub):
+                    if isinstance(s, (ast.For, ast.While)):
+                        for n in stored_names(s):
+                            env.pop(n, None)
+                    return env_at(sub, node, env)
+            return env  # node is in the header / the simple statement itself
+        env = seq_env([s], env=env)
+    return env
+
+
+def expr_at(fi, node, expr):
+    """`expr` evaluated symbolically at the program point of `node` inside fi"""
+    env = env_at(fi.node.body, node)
+    return _SubstEnv(env).visit(copy.deepcopy(expr))
+
+
+# ----------------------------------------------------------------------------- table access paths
+SHAPE_ONLY = {"reshape", "flatten", "ravel", "squeeze", "copy", "astype"}
+
+
+class Access:
+    """element(s) of a table parameter: table name, column (order) expression, row (pole) expression (None = all rows)"""
+
+    def __init__(self, table, col, row, extra=None):
+        self.table, self.col, self.row = table, col, row
+
+    def key(self):
+        return (self.table, dump(self.col) if self.col is not None else None, dump(self.row) if self.row is not None else None)
+
+    def __repr__(self):
+        return f"{self.table}[row={src(self.row) if self.row is not None else ':'}, col={src(self.col) if self.col is not None else ':'}]"
+
+
+def access_path(e, tables):
+    """decompose X[:, C].reshape(..)[R] / X[:, C][R, :] / X[R, C] / X[R, C, :] into Access; None if e is not such a path"""
+    chain = []
+    cur = e
+    while True:
+        if isinstance(cur, ast.Call) and isinstance(cur.func, ast.Attribute) and cur.func.attr in SHAPE_ONLY:
+            cur = cur.func.value
+        elif isinstance(cur, ast.Subscript):
+            chain.append(index_elts(cur))
+            cur = cur.value
+        else:
+            break
+    if not (isinstance(cur, ast.Name) and cur.id in tables):
+        return None
+    chain.reverse()
+    col = row = None
+    state = "table"  # table -> (rows x cols [x comps]) ; column -> rows [x comps]
+    for idx in chain:
+        idx = [i for i in idx]
+        if state == "table":
+            if len(idx) >= 2:
+                r, c = idx[0], idx[1]
+                if not is_full_slice(c):
+                    col = c
+                if not is_full_slice(r):
+                    row = r
+                state = "done" if (col is not None and row is not None) else ("column" if col is not None else "table-rowsel")
+            elif len(idx) == 1:
+                if not is_full_slice(idx[0]):
+                    row = idx[0]
+                state = "table-rowsel"
+        elif state == "column":
+            r = idx[0]
+            if not is_full_slice(r):
+                row = r
+                state = "done"
+        elif state == "table-rowsel":
+            # X[r] then [c]
+            c = idx[0]
+            if not is_full_slice(c):
+                col = c
+                state = "done"
+        else:
+            # further indexing of a selected element (component selection): ignore slices, refuse others
+            if not all(is_full_slice(i) for i in idx):
+                return None
+    return Access(cur.id, col, row)
